@@ -58,10 +58,19 @@ package core
 //@   requires os.first >= 0 && os.n >= 0
 
 // Cross-reference streams: the /W widths and the /Index pairs come from the file.
+// C04: the entry kind is decided by the type field (default 1 when its width is 0): 0 = free (an error on lookup),
+// 1 = in use at a byte offset, 2 = compressed (object stream number, index).
 //@ func (*XRefParser) parseXRefStreamEntry results (entry, n, err)
-//@   property C02
+//@   property C02, C04
 //@   requires len(w) == 3 && w[0] >= 0 && w[1] >= 0 && w[2] >= 0
+//@   let ty = w[0] > 0 ? be(data[0:w[0]], min(w[0], 8)) : 1
 //@   ensures consumed: !err ==> n == w[0] + w[1] + w[2] && n <= len(data) && n >= 0
+//@   ensures kind_free: !err && ty == 0 ==> !entry.InUse && entry.Type == XRefEntryFree
+//@   ensures kind_inuse: !err && ty == 1 ==> entry.InUse && entry.Type == XRefEntryUncompressed
+//@   ensures kind_compressed: !err && ty == 2 ==> entry.InUse && entry.Type == XRefEntryCompressed
+//@   ensures kind_other: len(data) >= w[0] + w[1] + w[2] ==> (err <==> !(ty == 0 || ty == 1 || ty == 2))
+//@   ensures field1: !err ==> entry.Offset == be(data[w[0]:w[0]+w[1]], min(w[1], 8))
+//@   ensures field2: !err ==> entry.Generation == be(data[w[0]+w[1]:w[0]+w[1]+w[2]], min(w[2], 8))
 
 //@ func (*XRefParser) parseXRefStream results (table, err)
 //@   property C02
